@@ -23,6 +23,18 @@ CHECKS = {
     "C17": ("exploration", "runtime monitoring: differential oracle over delivery forms (read schedules with Interrupted, stdin vs file, 1-4 files) plus a span model from the generator for the input-context selectors",
             "Each generated stream is delivered in five forms and as file partitions (also cut inside a value); rows carrying all seven input-context selectors are compared across forms and against byte spans known to the generator.",
             "(line, column) is mapped to a byte offset as line start + column - 1; chunking inside BufReader<File> cannot be controlled from the boundary.", "5 C17"),
+    "C08": ("exploration", "runtime monitoring: metamorphic/differential oracle (limited run = slice of the unlimited run of the same build), exhaustive over all small streams",
+            "Every stream of length <= 4 (quick) / 5 (thorough) over 4 keys x all S,T in 0..6 x 24 pipelines is executed for real and compared with the slice of the unlimited run; random histories up to 40 rows add unique/filter/split/select.",
+            "The unlimited run of the same build is the reference, so a defect that affects both runs identically is C03/C07's business; group/merge reference is rebuilt in Python from the unlimited rows.", "5 C08"),
+    "C09": ("exploration", "runtime monitoring: differential oracle (grouped/merged run vs rows of the ungrouped run of the same build) on generated histories",
+            "Each generated history is run with and without --group-by/--merge; the collection must be exactly one row built from the rows the ungrouped pipeline prints (first-seen key order, arrival order, empty collection on no rows).",
+            "The group key is read from the printed row (pipelines print the input or select .g=g); text output of a collection is its concise JSON.", "5 C09"),
+    "C10": ("exploration", "runtime monitoring: differential oracle (--unique run vs non-unique run) with equality observed from jawk's own = function and checked against the documented equality",
+            "Sequences over a universe of equal spellings are run with/without --unique; pairwise equality of the distinct rows is observed in a companion run of (= a b) and must agree with the model; the unique run must keep exactly first occurrences.",
+            "Rows are identified by their printed one-line text; -0, member-order permutations and |n| >= 2^53 are outside the property's domain.", "5 C10"),
+    "C14": ("exploration", "runtime monitoring at the read boundary: bytes pulled from an instrumented endless reader / FIFO (bounded-progress restatement of termination)",
+            "jawk::go is given an input that never ends; the monitor counts bytes pulled and fails the run if the reader's cap is reached or more than 64 KiB are pulled past the value that produces row S+T (located by finite unlimited runs of the same build).",
+            "Termination on unbounded input is not decidable by a finite run; it is restated as 'returns Ok having pulled a bounded number of bytes'. Decided in bytes, never in wall-clock time (the 30 s watchdog only yields inconclusive).", "5 C14"),
 }
 
 PENDING_REASON = "check not built yet in this session (see DESIGN.md section 5 for the planned monitor)"
